@@ -979,6 +979,69 @@ def rule_s3(ctx):
                     r.ob(g, "head of %s removed line %s: next one started / queue re-examined" % (q, c.line))
 
 
+# ---------------------------------------------------------------------------
+# T1: the absolute-expiry mode flag and the values it qualifies change together
+
+
+def rule_t1(ctx):
+    from .. import guards as G
+    r = ctx.rule("C02.T1", "T3", "a timeout never fires early: a_use_expire says that a_expire holds a caller-chosen absolute time. "
+                 "(a) a store of a caller's value into a_expire sets the flag, (b) an unconditional store of a caller's duration "
+                 "into a_timeout clears it, (c) a store of NNI_TIME_NEVER into a_expire that is not made under a test of the flag "
+                 "clears it (or the object was just zeroed) -- a stale flag makes the next operation ignore its timeout or reuse "
+                 "an old deadline", floor=3)
+    prog = ctx.prog
+    n = 0
+    for f in prog.fns_in("core/aio.c"):
+        if f.cfg_failed:
+            continue
+        params = {p_["n"] for p_ in f.params}
+        flag_sets = {True: [], False: []}
+        for t in f.assigns():
+            if t.node["lhs"].get("k") == "mem" and t.node["lhs"].get("f") == "a_use_expire":
+                cv = const_of(f.expand(t.node["rhs"]))
+                if cv is not None:
+                    flag_sets[bool(cv)].append((t.b, t.i))
+        facts = G.edge_facts(f)
+        zeroed = [(c.b, c.i) for c in f.calls("memset")]
+        for t in f.assigns():
+            l = t.node["lhs"]
+            if l.get("k") != "mem" or t.node.get("op") != "=":
+                continue
+            rhs = f.expand(t.node["rhs"])
+            from_param = rhs is not None and rhs.get("k") == "var" and rhs["n"] in params
+            need = None
+            if l.get("f") == "a_expire" and from_param:
+                need, what = True, "(a) caller's absolute time stored"
+            elif l.get("f") == "a_timeout" and from_param:
+                # only an unconditional store is a setter (replacing a default under a test of a_timeout is not)
+                if f.dominated_by((f.exit, 0), blocked=lambda b, i, e, t=t: (b, i) == (t.b, t.i)):
+                    need, what = False, "(b) caller's duration stored"
+            elif l.get("f") == "a_expire" and not from_param and const_of(rhs) is not None and const_of(rhs) != 0 and rhs.get("k") != "bin":
+                under_flag = any(any(m.get("k") == "mem" and m.get("f") == "a_use_expire" for m in walk(atom)) and
+                                 G.dominated(f, (t.b, t.i), {bid: k}) for bid, k, atom, val in facts)
+                fresh = any(f.dominated_by((t.b, t.i), blocked=lambda b, i, e, z=z: (b, i) == z) for z in zeroed)
+                if not under_flag and not fresh:
+                    need, what = False, "(c) deadline reset to never"
+            if need is None:
+                continue
+            n += 1
+            sets = flag_sets[need]
+            # the flag store is on every path through this store (before it since the function's entry, or after it)
+            ok = sets and (f.dominated_by((t.b, t.i), blocked=lambda b, i, e: (b, i) in sets) or
+                           (f.exit, 0) not in f.reach((t.b, t.i + 1), blocked=lambda b, i, e: (b, i) in sets))
+            if ok:
+                r.ob(f, "%s line %s: a_use_expire = %s on the same path" % (what, t.line, "true" if need else "false"))
+            else:
+                ctx.fail(r, f, "%s without a_use_expire = %s" % (show(l), "true" if need else "false"), t.line,
+                         "%s: %s at line %s, but a_use_expire is not set to %s on that path: the flag keeps describing the "
+                         "previous value, so a later operation %s"
+                         % (f.name, what, t.line, "true" if need else "false",
+                            "ignores the new timeout and expires at the stale absolute time" if not need else "ignores the absolute time"))
+    if n < 3:
+        raise AnalysisBroken("only %d stores to a_expire / a_timeout recognised in aio.c" % n)
+
+
 def run(ctx):   # noqa: F811
     ctx.guard(rule_a1)
     ctx.guard(rule_a2)
@@ -989,3 +1052,4 @@ def run(ctx):   # noqa: F811
     ctx.guard(rule_d1)
     ctx.guard(rule_e1)
     ctx.guard(rule_s3)
+    ctx.guard(rule_t1)
